@@ -146,6 +146,9 @@ package gocvss20
 // The chain lemmas are placed after the base group, and after the first get() call that follows each
 // optional group (where both branches have joined again).
 
+//@ func app(b, pre, v)
+//@   modifies b
+
 //@ func lenVec(cvss20)
 //@   requires[wf] (wf20 cvss20)
 //@   opt prune_infeasible
